@@ -148,7 +148,7 @@ class YPPrologCompiler:
     def pop_bound_vars(self):
         self.bound_vars.pop()
     def filter_free_variables(self,variables):
-        return list(set([ v for v in variables if v not in self.bound_vars[-1] ]))
+        return list(dict.fromkeys([ v for v in variables if v not in self.bound_vars[-1] ]))
     def compile_program(self,program):
         funcs = []
         for func,clauses in program.items():
